@@ -53,6 +53,9 @@ cb2 = Function("cb2", Ref, Ref, Ref, Bool)             # truth value of f(a, b)
 cb1_raises = Function("cb1_raises", Ref, Ref, Bool)
 cb2_raises = Function("cb2_raises", Ref, Ref, Ref, Bool)
 cbv1 = Function("cbv1", Ref, Ref, Ref)                 # value of f(a) for value-returning callbacks (rfunc, sort key ...)
+flt = Function("flt", Ref, RSeq, RSeq)                 # List.filter (keep f): the elements w with f None or f(w) true
+cls_has = Function("cls_has", Cls, Str, Bool)          # the class provides the attribute (method, property, class attribute)
+cls_get = Function("cls_get", Ref, Str, Ref)           # value of a class-provided attribute on an instance
 delnth = Function("delnth", RSeq, Int, RSeq)           # List.eraseIdx (del s[i], 0 <= i < len s)
 minus = Function("minus", RSeq, RSeq, RSeq)            # List.diff: remove one occurrence of each element of the second list
 
@@ -225,6 +228,8 @@ def Cnt(s, x):
         return ite(eq(x, y), IntVal(0), Cnt(a, x))
     if _is_uf(s, dedup):                  # count_dedup
         return b2i(Cnt(s.arg(0), x) >= 1)
+    if _is_uf(s, flt):                    # count_filter
+        return ite(keep(s.arg(0), x), Cnt(s.arg(1), x), IntVal(0))
     if _is_uf(s, minus):                  # count_diff
         a, p_ = s.arg(0), s.arg(1)
         ca, cp = Cnt(a, x), Cnt(p_, x)
@@ -300,6 +305,23 @@ def Minus(s, p):
     if _is_ite(p):
         return ite(p.arg(0), Minus(s, p.arg(1)), Minus(s, p.arg(2)))
     return minus(s, p)
+
+
+def keep(f, w):
+    return disj(eq(f, NONE), cb1(f, w))
+
+
+def Flt(f, s):
+    """the elements of s kept by the optional filter callback f  (List.filter; filter_append)"""
+    if _is_empty(s):
+        return s
+    if _is_unit(s):
+        return ite(keep(f, s.arg(0)), s, EMPTY())
+    if _is_concat(s):
+        return cat(*[Flt(f, p) for p in _flat(s)])
+    if _is_ite(s):
+        return ite(s.arg(0), Flt(f, s.arg(1)), Flt(f, s.arg(2)))
+    return flt(f, s)
 
 
 def Dedup(s):
@@ -448,9 +470,14 @@ def axioms_for(found, class_axioms, seen_cls):
     """generic axiom instances for newly found terms"""
     new = []
     for t in found["cnt"]:
-        s = t.arg(0)
+        s, x = t.arg(0), t.arg(1)
         new.append(t >= 0)                                   # count_nonneg
         new.append(t <= Length(s))                           # count_le_length
+        new.append(Implies(Length(s) == 0, t == 0))           # count_nil
+        # end lists are short: count unfolds completely (count_cons); only for reads of the `_vertices` field
+        if is_app(s) and s.num_args() == 1 and s.decl().name().startswith("_vertices@"):
+            new.append(Implies(Length(s) == 1, t == b2i(s[0] == x)))
+            new.append(Implies(Length(s) == 2, t == b2i(s[0] == x) + b2i(s[1] == x)))
     for t in found["rem1"]:
         a, y = t.arg(0), t.arg(1)
         new.append(Implies(Cnt(a, y) == 0, t == a))          # erase_of_not_mem
@@ -465,6 +492,7 @@ def axioms_for(found, class_axioms, seen_cls):
         new.append(Length(t) == Length(t.arg(0)))
     for t in found.get("minus", ()):
         new.append(Length(t) <= Length(t.arg(0)))
+        new.append(Implies(Length(t.arg(1)) == 0, t == t.arg(0)))   # diff_nil
     for t in found["sub"]:
         c = t.arg(0)
         ck = c.get_id()
